@@ -264,7 +264,7 @@ impl Ctx {
                 self.samples.push(json!({"case": c.src, "how": c.meta, "outcome": format!("{:?}", o.class)}));
             }
             // conformance representatives: one per outcome class x diagnostic shape
-            if c.mode == Mode::Run {
+            if c.mode == Mode::Run && !o.crashed() {
                 let key = h64(&(&o.class, shape(&o.msg)));
                 if self.conf_seen.len() < 400 && self.conf_seen.insert(key) {
                     self.conformance.push((c.src.clone(), o.clone()));
